@@ -654,6 +654,30 @@ def make_site_judge(pid, vkey=None):
     return judge
 
 
+# ---------------------------------------------------------------- C10: a statement alone vs. inside a module
+def gen_ctx(seed, tier, start, quick=500, thorough=12000):
+    cs = gen_cases.gen_ctx_cases(seed, quick if tier == "quick" else thorough, start)
+    return cs + gen_modules(seed, tier, start + len(cs), 100, 2000)
+
+
+def judge_c10(case, side, res):
+    v = make_judge(None, None, whole=True)(case, side, res)
+    if case.get("stream") != "ctx":
+        v["relevant"] = False
+        return v
+    if side.get("status") != "ok" or res is None:
+        v["relevant"] = False
+        return v
+    r = res.get("alt_site", "none")
+    if r == "none":
+        v["relevant"] = False
+    elif r != "1":
+        v["ok"] = False
+        v["oracle_why"] = ("the probe statement is lowered differently inside the module than alone "
+                           "(identifiers compared by what they denote; generated temporaries by order)")
+    return v
+
+
 SITE_TRUST = ["Spec/Site.v + Spec/SiteCheck.v are this check's independent reading of what a JSX element denotes (type, contributions to the props in order, directives, children / slots); it is compared with the REAL output of probe modules `const __site = <element>`",
               "that the compared shapes evaluate as intended under JavaScript and Vue (object literal order, mergeProps, withDirectives, slot invocation) is argued in DESIGN.md, not proved"]
 
@@ -663,6 +687,10 @@ PROPS = {
     "C04": {"gen": gen_sites, "judge": make_site_judge("C04"), "trusted": SITE_TRUST, "assumptions": []},
     "C05": {"gen": gen_sites, "judge": make_site_judge("C05"), "trusted": SITE_TRUST, "assumptions": []},
     "C11": {"gen": gen_sites, "judge": make_site_judge("C11"), "trusted": SITE_TRUST, "assumptions": []},
+    "C10": {"gen": gen_ctx, "judge": judge_c10,
+            "trusted": ["Spec/Context.v names identifiers by what they denote (vue import -> imported name, generated temporary -> order of first occurrence, other identifiers -> name + order of their scope); two lowerings equal under this naming evaluate alike provided C06 holds for the temporaries",
+                        "the prefix / suffix statements never bind a name the probe references (generator invariant)"],
+            "assumptions": ["pragma annotations are module-wide (C15) and are not used as distractors"]},
     "C16": {"gen": gen_types, "judge": judge_c16, "trusted": ["the expected prop map is the one the generator encoded (ground truth independent of the model)"], "assumptions": []},
     "C17": {"gen": gen_types, "judge": judge_c17, "trusted": ["tools/props.py:vue_accepts is this check's reading of Vue's validateProp/assertType; the kinds of each atom type are the generator's table"], "assumptions": []},
     "C18": {"gen": gen_types, "judge": judge_c18, "trusted": ["Vue's resolvePropValue: a function default is called as a factory unless the prop's type is exactly Function"], "assumptions": []},
